@@ -43,8 +43,12 @@ Local Notation S0 := (code_sem fb).
 
 Lemma f0_sustain_of f : sustain_of fb f = 1.
 Proof.
-  unfold sustain_of. rewrite (f0_crossings fb (f0_unpack fb HF)), (f0_sustains fb (f0_unpack fb HF)).
-  cbn. destruct (existsb (Nat.eqb f) c); reflexivity.
+  unfold sustain_of.
+  assert (G : forall (l : list (list nat * nat)) acc, (forall p, In p l -> snd p = 1) -> acc = 1 ->
+              fold_left (fun acc cs => if existsb (Nat.eqb f) (fst cs) then snd cs else acc) l acc = 1).
+  { induction l as [|p t IH]; intros acc H Ha; [exact Ha|]. cbn [fold_left]. apply IH; [intros x Hx; apply H; right; exact Hx|].
+    destruct (existsb (Nat.eqb f) (fst p)); [apply H; left; reflexivity | exact Ha]. }
+  apply G; [|reflexivity]. intros [ci su] Hp. cbn [snd]. apply in_combine_r in Hp. apply (f0_sustains fb (f0_unpack fb HF)). exact Hp.
 Qed.
 
 Lemma f0_sem_trials : s_trials S0 = fl_trials fb.
@@ -91,12 +95,15 @@ Proof.
   destruct E as [Ew _]. rewrite Ew in H. discriminate.
 Qed.
 
-Lemma f0_compile_combos : Compile.trial_combinations_of fb c = map (fun ls => combine c ls) prod.
+Lemma f0_compile_combos_of ci : Compile.trial_combinations_of fb ci = map (fun ls => combine ci ls) (allowed_combos fb ci).
 Proof.
   unfold Compile.trial_combinations_of, Compile.crossing_combos. rewrite compile_product_eq.
-  rewrite (product_pairs c (fun f => seq 0 (nlevels fb f))). rewrite filter_map_comm. f_equal.
-  unfold f0_cprod, allowed_combos. apply filter_ext. intros ls. rewrite f0_compile_not_excluded. reflexivity.
+  rewrite (product_pairs ci (fun f => seq 0 (nlevels fb f))). rewrite filter_map_comm. f_equal.
+  unfold allowed_combos. apply filter_ext. intros ls. rewrite f0_compile_not_excluded. reflexivity.
 Qed.
+
+Lemma f0_compile_combos : Compile.trial_combinations_of fb c = map (fun ls => combine c ls) prod.
+Proof. apply f0_compile_combos_of. Qed.
 
 Lemma f0_compile_level_weight f l : Compile.level_weight fb f l = level_weight_nat fb f l.
 Proof.
@@ -124,20 +131,53 @@ Proof.
   f_equal. apply IH. lia.
 Qed.
 
-Lemma f0_sem_crossings : s_crossings S0 = [f0_crossing].
+Lemma list_nat_eqb_same a b : Compile.list_nat_eqb a b = nat_list_eqb a b.
+Proof. revert b. induction a as [|x a IH]; intros [|y b]; cbn [Compile.list_nat_eqb nat_list_eqb]; try reflexivity; try (rewrite IH; reflexivity). Qed.
+
+Lemma crossing_ind_first ci cs a : first_index_of ci cs a = option_map (Nat.add a) (Compile.crossing_ind ci cs).
 Proof.
-  unfold code_sem, CodeSem.code_sem. cbn [s_crossings]. rewrite (f0_crossings fb (f0_unpack fb HF)).
-  cbn [CodeSem.code_crossings]. f_equal. unfold CodeSem.code_crossing, f0_crossing.
-  assert (Hw : Compile.crossing_weight fb c = the_weight fb).
-  { unfold Compile.crossing_weight. rewrite (f0_crossings fb (f0_unpack fb HF)). cbn [Compile.crossing_ind].
-    rewrite list_nat_eqb_refl. rewrite (f0_weights fb (f0_unpack fb HF)). reflexivity. }
-  assert (Hp : Compile.preamble_size fb 0 = 0).
-  { unfold Compile.preamble_size, post_preamble_size.
-    rewrite (f0_preambles fb (f0_unpack fb HF)), (f0_alpre fb (f0_unpack fb HF)). destruct (fl_alignment fb); reflexivity. }
-  rewrite Hw, Hp. rewrite (f0_sizes fb (f0_unpack fb HF)). cbn [nth]. fold (f0_C fb).
-  f_equal. rewrite f0_compile_combos. rewrite map_map. apply map_ext_in. intros ls Hls.
-  rewrite f0_compile_combination_weight, f0_sustain_of. rewrite Nat.mul_1_r. fold (f0_cw fb ls).
-  rewrite map_snd_combine; [reflexivity|]. rewrite (product_length_elem _ _ (f0_cprod_in_prod fb HF ls Hls)). rewrite map_length. reflexivity.
+  revert a. induction cs as [|d t IH]; intros a; [reflexivity|]. cbn [first_index_of Compile.crossing_ind].
+  change (Compile.list_nat_eqb d ci) with (nat_list_eqb d ci). destruct (nat_list_eqb d ci); [cbn; f_equal; lia|].
+  rewrite IH. destruct (Compile.crossing_ind ci t); cbn; [f_equal; lia | reflexivity].
+Qed.
+
+Lemma f0_crossing_weight_of ci : In ci (fl_crossings fb) -> Compile.crossing_weight fb ci = cw_of fb ci.
+Proof.
+  intros Hci. unfold Compile.crossing_weight, cw_of. rewrite crossing_ind_first.
+  destruct (first_index_of_spec ci _ Hci 0) as [j [Hj _]]. rewrite crossing_ind_first in Hj.
+  destruct (Compile.crossing_ind ci (fl_crossings fb)); [reflexivity | discriminate].
+Qed.
+
+Lemma f0_preamble_size i : Compile.preamble_size fb i = 0.
+Proof.
+  unfold Compile.preamble_size. rewrite (f0_post_preamble fb HF).
+  destruct (fl_alignment fb); try reflexivity;
+    (destruct (Nat.lt_ge_cases i (length (fl_preambles fb))) as [Hi | Hi];
+     [apply (f0_preambles fb (f0_unpack fb HF)), nth_In; exact Hi | apply nth_overflow; exact Hi]).
+Qed.
+
+(** every crossing of the block, as the reference semantics reads it *)
+Lemma f0_code_crossing i ci : In ci (fl_crossings fb) ->
+  CodeSem.code_crossing fb i ci =
+  {| c_factors := ci; c_first := 0; c_chunk := nth i (fl_sizes fb) 0 * cw_of fb ci;
+     c_mult := map (fun ls => (ls, combo_weight fb (combine ci ls) * cw_of fb ci)) (allowed_combos fb ci) |}.
+Proof.
+  intros Hci. unfold CodeSem.code_crossing. rewrite (f0_crossing_weight_of ci Hci), f0_preamble_size.
+  f_equal. rewrite f0_compile_combos_of. rewrite map_map. apply map_ext_in. intros ls Hls.
+  rewrite f0_compile_combination_weight, f0_sustain_of. rewrite Nat.mul_1_r.
+  rewrite map_snd_combine; [reflexivity|]. unfold allowed_combos in Hls. apply filter_In in Hls. destruct Hls as [Hls _].
+  rewrite (product_length_elem _ _ Hls). rewrite map_length. reflexivity.
+Qed.
+
+(** the crossings after the first *)
+Definition f0_ocrossings : list dcrossing := CodeSem.code_crossings fb 1 (tl (fl_crossings fb)).
+
+Lemma f0_sem_crossings : s_crossings S0 = f0_crossing :: f0_ocrossings.
+Proof.
+  unfold code_sem, CodeSem.code_sem. cbn [s_crossings]. rewrite (f0_crossings fb (f0_unpack fb HF)) at 1.
+  cbn [CodeSem.code_crossings]. f_equal.
+  rewrite f0_code_crossing by (rewrite (f0_crossings fb (f0_unpack fb HF)); left; reflexivity).
+  unfold f0_crossing. rewrite (f0_cw_of_main fb HF). rewrite (f0_sizes fb (f0_unpack fb HF)). cbn [nth]. reflexivity.
 Qed.
 
 End F0S.
